@@ -543,6 +543,15 @@ fn walk_levels<'a>(
             return Verdict::Fail(f);
         }
     }
+    // the generated `help` subcommand of a built command carries a copy of the subtree (`prog help <sub> ...`): its own help
+    // pages must not list what is hidden either
+    if !level.settings.disable_help_subcommand && !level.subs.is_empty() && !level.subs.iter().any(|s| s.name == "help" || s.aliases.iter().any(|a| a.0 == "help")) {
+        if let Some(help_cmd) = cmd.find_subcommand_mut("help") {
+            if let Verdict::Fail(f) = walk_help_tree(path, level, help_cmd, ctx) {
+                return Verdict::Fail(f);
+            }
+        }
+    }
     path.push(level);
     for sc in &level.subs {
         let Some(sub) = cmd.find_subcommand_mut(&sc.name) else {
@@ -656,6 +665,56 @@ fn check_help_dispatch(spec: &CmdSpec, ctx: &mut Ctx) -> Verdict {
         return Verdict::Pass;
     }
     rec(spec, &mut Vec::new(), spec, &mut Vec::new(), false, ctx)
+}
+
+/// `help_cmd`: the node of the generated help tree that stands for `level` (the `help` subcommand itself for the level that
+/// owns it, the copy of a subcommand below).
+fn walk_help_tree(path: &[&CmdSpec], level: &CmdSpec, help_cmd: &mut clap::Command, ctx: &mut Ctx) -> Verdict {
+    for long in [false, true] {
+        let rendered = match catch(|| {
+            let h = if long { help_cmd.render_long_help() } else { help_cmd.render_help() };
+            format!("{}\n{}", h, help_cmd.render_usage())
+        }) {
+            Ok(x) => x,
+            Err(p) => {
+                return Verdict::fail(
+                    p.signature(),
+                    format!("rendering the help of the help-tree node for {:?} panicked at {}:{}: {}", level.name, p.file, p.line, p.message),
+                )
+            }
+        };
+        let legit = legit_tokens(path, level);
+        for sc in level.subs.iter().filter(|s| s.hide) {
+            let mut names: Vec<&String> = vec![&sc.name];
+            names.extend(sc.aliases.iter().map(|a| &a.0));
+            for n in names {
+                if legit.contains(n.as_str()) {
+                    ctx.exclude("hidden-name-equals-a-visible-token");
+                    continue;
+                }
+                ensure!(
+                    !has_token(&rendered, n),
+                    "help:hidden-subcommand-shown-in-help-tree",
+                    "help-tree node for level {:?} ({} help): hidden subcommand spelling {:?} appears\n{}",
+                    level.name,
+                    if long { "long" } else { "short" },
+                    n,
+                    rendered
+                );
+                ctx.label("hidden-subcommand-checked-in-help-tree");
+            }
+        }
+    }
+    let mut below: Vec<&CmdSpec> = path.to_vec();
+    below.push(level);
+    for sc in &level.subs {
+        if let Some(copy) = help_cmd.find_subcommand_mut(&sc.name) {
+            if let Verdict::Fail(f) = walk_help_tree(&below, sc, copy, ctx) {
+                return Verdict::Fail(f);
+            }
+        }
+    }
+    Verdict::Pass
 }
 
 pub fn run_help(case: &HelpCase, ctx: &mut Ctx) -> Verdict {
